@@ -7,9 +7,13 @@ import CpModel.BlockWait
 namespace CpProofs.C20B
 open CpModel.BlockWait
 
-inductive Reach (s0 : St) (calls : List BCall) : Cfg → Prop where
-  | init : Reach s0 calls (init s0 calls)
-  | step {c : Cfg} (t : Tid) : Reach s0 calls c → Reach s0 calls (step c t)
+inductive Reach (s0 : St) (calls : List BCall) (fr : List Bool) : Cfg → Prop where
+  | init : Reach s0 calls fr (init s0 calls fr)
+  | step {c : Cfg} (t : Tid) : Reach s0 calls fr c → Reach s0 calls fr (step c t)
+
+/-- the main thread has left the polling loop of `wait` -/
+def leftWait (m : MPc) : Prop :=
+  m = .tail ∨ m = .jn ∨ m = .jw ∨ m = .ex ∨ m = .dx ∨ m = .done
 
 def inExitFrame (c : Cfg) : Prop :=
   c.xpc = .r7 ∨ c.xpc = .r8 ∨ c.xpc = .e2 ∨ c.xpc = .e3 ∨ c.xpc = .e4 ∨ c.xpc = .e5 ∨ c.xpc = .e7 ∨
@@ -30,11 +34,12 @@ structure Inv (calls : List BCall) (c : Cfg) : Prop where
   fr : inExitFrame c → c.todo = []
   ie : c.inExit = true → inStopFrame c
   saw : c.sawExiting = true → c.exited = true
-  mp : (c.mpc = .tail ∨ c.mpc = .done) → c.sawExiting = true
+  mp : leftWait c.mpc → c.sawExiting = true
   xv : c.execv = true → BCall.restart ∈ calls
   xr : BCall.restart ∈ calls → BCall.restart ∈ c.todo ∨ c.xpc = .r7 ∨ c.execv = true
   dn : c.mpc = .done → c.execvDone = c.execv
   nd : c.mpc ≠ .done → c.execvDone = false
+  dxv : c.mpc = .dx → c.execv = true
   rr : c.xpc = .r7 → BCall.restart ∈ calls
   ee : (c.xpc = .e8 ∨ c.xpc = .e9 ∨ c.xpc = .e12 ∨ c.xpc = .e20) → c.exited = true
 
@@ -45,61 +50,65 @@ theorem exitLast_tail {b : BCall} {r : List BCall} (h : ExitLast (b :: r) = true
 theorem inv_enter {calls : List BCall} {c : Cfg} (h : Inv calls c)
     (hx : ¬ inExitFrame c) (he : c.exited = false) :
     Inv calls (enter c) := by
-  obtain ⟨exl, sub, ex, st, fr, ie, saw, mp, xv, xr, dn, nd, rr, ee⟩ := h
+  obtain ⟨exl, sub, ex, st, fr, ie, saw, mp, xv, xr, dn, nd, dxv, rr, ee⟩ := h
   unfold enter
   split
-  · refine ⟨by simp_all, by simp_all, ?_, ?_, ?_, ?_, ?_, ?_, ?_, ?_, ?_, ?_, ?_, ?_⟩ <;>
-      simp only [inExitFrame, afterE7, inStopFrame] at * <;> grind
+  · refine ⟨by simp_all, by simp_all, ?_, ?_, ?_, ?_, ?_, ?_, ?_, ?_, ?_, ?_, ?_, ?_, ?_⟩ <;>
+      simp only [inExitFrame, afterE7, inStopFrame, leftWait] at * <;> grind
   all_goals
     rename_i r heq
     have h2 := exitLast_tail (heq ▸ exl)
     have hsub : ∀ b, b ∈ r → b ∈ calls := fun b hb => sub b (by rw [heq]; exact List.mem_cons_of_mem _ hb)
     have hhd := sub _ (by rw [heq]; exact List.mem_cons_self)
-    refine ⟨h2.1, hsub, ?_, ?_, ?_, ?_, ?_, ?_, ?_, ?_, ?_, ?_, ?_, ?_⟩ <;>
-      simp only [inExitFrame, afterE7, inStopFrame, heq] at * <;> grind
+    refine ⟨h2.1, hsub, ?_, ?_, ?_, ?_, ?_, ?_, ?_, ?_, ?_, ?_, ?_, ?_, ?_⟩ <;>
+      simp only [inExitFrame, afterE7, inStopFrame, leftWait, heq] at * <;> grind
 
 
-theorem inv_init (s0 : St) (calls : List BCall) (hs : s0 ≠ .exiting) (hl : ExitLast calls = true) :
-    Inv calls (init s0 calls) := by
+theorem inv_init (s0 : St) (calls : List BCall) (fr : List Bool) (hs : s0 ≠ .exiting)
+    (hl : ExitLast calls = true) : Inv calls (init s0 calls fr) := by
   unfold init
   apply inv_enter
-  · refine ⟨hl, fun _ h => h, ?_, ?_, ?_, ?_, ?_, ?_, ?_, ?_, ?_, ?_, ?_, ?_⟩ <;>
-      simp_all [inExitFrame, afterE7, inStopFrame]
+  · refine ⟨hl, fun _ h => h, ?_, ?_, ?_, ?_, ?_, ?_, ?_, ?_, ?_, ?_, ?_, ?_, ?_⟩ <;>
+      simp_all [inExitFrame, afterE7, inStopFrame, leftWait]
   · simp [inExitFrame]
   · rfl
 
 theorem inv_stepMain {calls : List BCall} {c : Cfg} (h : Inv calls c) : Inv calls (stepMain c) := by
-  obtain ⟨exl, sub, ex, st, fr, ie, saw, mp, xv, xr, dn, nd, rr, ee⟩ := h
+  obtain ⟨exl, sub, ex, st, fr, ie, saw, mp, xv, xr, dn, nd, dxv, rr, ee⟩ := h
   unfold stepMain
-  cases hpc : c.mpc <;> simp only [] <;> (try split) <;>
-    (refine ⟨exl, sub, ?_, ?_, ?_, ?_, ?_, ?_, xv, ?_, ?_, ?_, ?_, ?_⟩ <;>
-      simp only [inExitFrame, afterE7, inStopFrame] at * <;> grind)
+  cases hpc : c.mpc <;> simp only [] <;> (try split) <;> (try split) <;> (try split) <;>
+    (refine ⟨exl, sub, ?_, ?_, ?_, ?_, ?_, ?_, xv, ?_, ?_, ?_, ?_, ?_, ?_⟩ <;>
+      simp only [inExitFrame, afterE7, inStopFrame, leftWait] at * <;> grind)
 
 theorem inv_stepX {calls : List BCall} {c : Cfg} (h : Inv calls c) : Inv calls (stepX c) := by
   have h0 := h
-  obtain ⟨exl, sub, ex, st, fr, ie, saw, mp, xv, xr, dn, nd, rr, ee⟩ := h
+  obtain ⟨exl, sub, ex, st, fr, ie, saw, mp, xv, xr, dn, nd, dxv, rr, ee⟩ := h
   unfold stepX
   cases hpc : c.xpc <;> simp only []
   case s6 =>
     split
-    · refine ⟨exl, sub, ?_, ?_, ?_, ?_, ?_, ?_, xv, ?_, ?_, ?_, ?_, ?_⟩ <;>
-        simp only [inExitFrame, afterE7, inStopFrame] at * <;> grind
+    · refine ⟨exl, sub, ?_, ?_, ?_, ?_, ?_, ?_, xv, ?_, ?_, ?_, ?_, ?_, ?_⟩ <;>
+        simp only [inExitFrame, afterE7, inStopFrame, leftWait] at * <;> grind
     · apply inv_enter h0 <;> simp only [inExitFrame, afterE7] at * <;> grind
   case a9 => apply inv_enter h0 <;> simp only [inExitFrame, afterE7, inStopFrame] at * <;> grind
   case g3 => apply inv_enter h0 <;> simp only [inExitFrame, afterE7, inStopFrame] at * <;> grind
   case e20 =>
     split
-    · refine ⟨exl, sub, ?_, ?_, ?_, ?_, ?_, ?_, xv, ?_, ?_, ?_, ?_, ?_⟩ <;>
-        simp only [inExitFrame, afterE7, inStopFrame] at * <;> grind
+    · refine ⟨exl, sub, ?_, ?_, ?_, ?_, ?_, ?_, xv, ?_, ?_, ?_, ?_, ?_, ?_⟩ <;>
+        simp only [inExitFrame, afterE7, inStopFrame, leftWait] at * <;> grind
     · have ht : c.todo = [] := by
         exact (ex (ee (by simp [hpc]))).2.1
       simp only [enter, ht]
-      refine ⟨by simp [ht, ExitLast], by simp, ?_, ?_, ?_, ?_, ?_, ?_, xv, ?_, ?_, ?_, ?_, ?_⟩ <;>
-        simp only [inExitFrame, afterE7, inStopFrame] at * <;> grind
+      refine ⟨by simp [ht, ExitLast], by simp, ?_, ?_, ?_, ?_, ?_, ?_, xv, ?_, ?_, ?_, ?_, ?_, ?_⟩ <;>
+        simp only [inExitFrame, afterE7, inStopFrame, leftWait] at * <;> grind
   all_goals
-    (refine ⟨exl, sub, ?_, ?_, ?_, ?_, ?_, ?_, ?_, ?_, ?_, ?_, ?_, ?_⟩ <;>
-      simp only [inExitFrame, afterE7, inStopFrame] at * <;> grind)
+    (refine ⟨exl, sub, ?_, ?_, ?_, ?_, ?_, ?_, ?_, ?_, ?_, ?_, ?_, ?_, ?_⟩ <;>
+      simp only [inExitFrame, afterE7, inStopFrame, leftWait] at * <;> grind)
 
+theorem inv_stepF {calls : List BCall} {c : Cfg} (k : Nat) (h : Inv calls c) :
+    Inv calls { c with fdone := c.fdone.set k true } := by
+  obtain ⟨exl, sub, ex, st, fr, ie, saw, mp, xv, xr, dn, nd, dxv, rr, ee⟩ := h
+  exact ⟨exl, sub, ex, st, fr, ie, saw, mp, xv, xr, dn, nd, dxv, rr, ee⟩
 
 theorem inv_step {calls : List BCall} {c : Cfg} (t : Tid) (h : Inv calls c) : Inv calls (step c t) := by
   unfold step
@@ -107,13 +116,18 @@ theorem inv_step {calls : List BCall} {c : Cfg} (t : Tid) (h : Inv calls c) : In
   · cases t
     · exact inv_stepMain h
     · exact inv_stepX h
+    · exact inv_stepF _ h
   · exact h
 
-theorem inv_of_reach {s0 : St} {calls : List BCall} {c : Cfg} (hs : s0 ≠ .exiting)
-    (hl : ExitLast calls = true) (h : Reach s0 calls c) : Inv calls c := by
+theorem inv_of_reach {s0 : St} {calls : List BCall} {fr : List Bool} {c : Cfg} (hs : s0 ≠ .exiting)
+    (hl : ExitLast calls = true) (h : Reach s0 calls fr c) : Inv calls c := by
   induction h with
-  | init => exact inv_init s0 calls hs hl
+  | init => exact inv_init s0 calls fr hs hl
   | step t _ ih => exact inv_step t ih
+
+theorem stepMain_exited (c : Cfg) : (stepMain c).exited = c.exited := by
+  unfold stepMain
+  cases c.mpc <;> simp only [] <;> (try split) <;> (try split) <;> (try split) <;> rfl
 
 theorem exited_step {calls : List BCall} {c : Cfg} (t : Tid) (h : Inv calls c)
     (he : c.exited = true) : (step c t).exited = true := by
@@ -121,69 +135,374 @@ theorem exited_step {calls : List BCall} {c : Cfg} (t : Tid) (h : Inv calls c)
   unfold step
   split
   · cases t
-    · unfold stepMain; cases c.mpc <;> simp only [] <;> (try split) <;> exact he
+    · rw [stepMain_exited]; exact he
     · unfold stepX
       simp only [afterE7] at hx
       rcases hx with h | h | h | h | h | h <;> simp only [h] <;> (try split) <;>
         (try unfold enter) <;> (try split) <;> exact he
+    · exact he
   · exact he
 
+/-! ### the join loop: which threads `block()` joins -/
+
+theorem isDone_set {c : Cfg} (k j : Nat) (h : isDone c j = true) :
+    isDone { c with fdone := c.fdone.set k true } j = true := by
+  unfold isDone at *
+  simp only [List.getD_eq_getElem?_getD, List.getElem?_set] at *
+  split <;> simp_all
+  split <;> simp_all
+
+structure JInv (c : Cfg) : Prop where
+  len : c.fdone.length = c.foreign.length
+  /-- a snapshot entry of a foreign thread carries that thread's `daemon` flag -/
+  sn : ∀ t ∈ c.snap, ∀ k, t.fid = some k →
+        k < c.foreign.length ∧ t.daemon = c.foreign.getD k true ∧ t.cur = false ∧ t.main = false
+  jw : c.mpc = .jw → c.jtgt < c.foreign.length ∧ c.foreign.getD c.jtgt true = false
+  jd : ∀ k ∈ c.joined, k < c.foreign.length ∧ c.foreign.getD k true = false
+  /-- inside the loop every unfinished non-daemon foreign thread is still ahead (or being joined) -/
+  cv : (c.mpc = .jn ∨ c.mpc = .jw) → ∀ k, k < c.foreign.length → c.foreign.getD k true = false →
+        isDone c k = true ∨ (∃ t ∈ c.snap, t.fid = some k) ∨ (c.mpc = .jw ∧ c.jtgt = k)
+  fin : (c.mpc = .ex ∨ c.mpc = .dx ∨ c.mpc = .done) → ∀ k, k < c.foreign.length →
+        c.foreign.getD k true = false → isDone c k = true
+
+theorem mem_aliveForeign {c : Cfg} {t : Cand} (h : t ∈ aliveForeign c) :
+    ∃ k, k < c.foreign.length ∧ isDone c k = false ∧ t = { daemon := c.foreign.getD k true, fid := some k } := by
+  unfold aliveForeign at h
+  simp only [List.mem_filterMap, List.mem_range] at h
+  obtain ⟨k, hk, hx⟩ := h
+  refine ⟨k, hk, ?_⟩
+  split at hx
+  · simp at hx
+  · simp only [Option.some.injEq] at hx
+    exact ⟨by simp_all, hx.symm⟩
+
+theorem aliveForeign_mem {c : Cfg} {k : Nat} (hk : k < c.foreign.length) (hd : isDone c k = false) :
+    ∃ t ∈ aliveForeign c, t.fid = some k := by
+  refine ⟨{ daemon := c.foreign.getD k true, fid := some k }, ?_, rfl⟩
+  unfold aliveForeign
+  simp only [List.mem_filterMap, List.mem_range]
+  exact ⟨k, hk, by simp [hd]⟩
+
+theorem jinv_init (s0 : St) (calls : List BCall) (fr : List Bool) : JInv (init s0 calls fr) := by
+  have : ∀ c : Cfg, c.mpc = .b10 → c.snap = [] → c.joined = [] → c.fdone.length = c.foreign.length →
+      JInv (enter c) := by
+    intro c h1 h2 h3 h4
+    have e1 : (enter c).mpc = c.mpc := by unfold enter; split <;> rfl
+    have e2 : (enter c).snap = c.snap := by unfold enter; split <;> rfl
+    have e3 : (enter c).joined = c.joined := by unfold enter; split <;> rfl
+    have e4 : (enter c).fdone = c.fdone := by unfold enter; split <;> rfl
+    have e5 : (enter c).foreign = c.foreign := by unfold enter; split <;> rfl
+    refine ⟨by rw [e4, e5]; exact h4, ?_, ?_, ?_, ?_, ?_⟩ <;> simp [e1, e2, e3, h1, h2, h3]
+  exact this _ rfl rfl rfl (by simp)
+
+theorem jinv_frame {c c' : Cfg} (h : JInv c) (h1 : c'.mpc = c.mpc) (h2 : c'.foreign = c.foreign)
+    (h3 : c'.fdone = c.fdone) (h4 : c'.snap = c.snap) (h5 : c'.jtgt = c.jtgt)
+    (h6 : c'.joined = c.joined) : JInv c' := by
+  obtain ⟨len, sn, jw, jd, cv, fin⟩ := h
+  refine ⟨?_, ?_, ?_, ?_, ?_, ?_⟩ <;> simp only [h1, h2, h3, h4, h5, h6, isDone] at * <;> assumption
+
+theorem stepX_frame (c : Cfg) :
+    (stepX c).mpc = c.mpc ∧ (stepX c).foreign = c.foreign ∧ (stepX c).fdone = c.fdone ∧
+      (stepX c).snap = c.snap ∧ (stepX c).jtgt = c.jtgt ∧ (stepX c).joined = c.joined := by
+  unfold stepX
+  cases c.xpc <;> simp only [] <;> (try split) <;> (try unfold enter) <;> (try split) <;> simp
+
+theorem jinv_stepF {c : Cfg} (k : Nat) (h : JInv c) : JInv { c with fdone := c.fdone.set k true } := by
+  obtain ⟨len, sn, jw, jd, cv, fin⟩ := h
+  refine ⟨by simpa using len, sn, jw, jd, ?_, ?_⟩
+  · intro hm j hj hn
+    rcases cv hm j hj hn with h | h | h
+    · exact Or.inl (isDone_set k j h)
+    · exact Or.inr (Or.inl h)
+    · exact Or.inr (Or.inr h)
+  · intro hm j hj hn
+    exact isDone_set k j (fin hm j hj hn)
+
+theorem jinv_stepMain {c : Cfg} (h : JInv c) (hen : enabled c .main = true) : JInv (stepMain c) := by
+  obtain ⟨len, sn, jw, jd, cv, fin⟩ := h
+  unfold stepMain
+  cases hpc : c.mpc <;> simp only []
+  case b10 => refine ⟨len, sn, ?_, jd, ?_, ?_⟩ <;> simp
+  case b11 => refine ⟨len, sn, ?_, jd, ?_, ?_⟩ <;> simp
+  case w2 => refine ⟨len, sn, ?_, jd, ?_, ?_⟩ <;> simp
+  case w4 => split <;> (refine ⟨len, sn, ?_, jd, ?_, ?_⟩ <;> simp)
+  case w5 => refine ⟨len, sn, ?_, jd, ?_, ?_⟩ <;> simp
+  case w6 => refine ⟨len, sn, ?_, jd, ?_, ?_⟩ <;> simp
+  case tail =>
+    refine ⟨len, ?_, by simp, jd, ?_, by simp⟩
+    · intro t ht k hk
+      simp only [cands, List.mem_append, List.mem_cons, List.not_mem_nil, or_false] at ht
+      rcases ht with (h | h | h) | h
+      · subst h; simp at hk
+      · subst h; simp at hk
+      · subst h; simp at hk
+      · obtain ⟨k', hk', _, ht'⟩ := mem_aliveForeign h
+        subst ht'
+        simp only [Option.some.injEq] at hk
+        subst hk
+        exact ⟨hk', rfl, rfl, rfl⟩
+    · intro _ k hk hn
+      have hk' : k < c.foreign.length := hk
+      cases hd : isDone c k with
+      | true => exact Or.inl (by simpa [isDone] using hd)
+      | false =>
+        obtain ⟨t, ht, hf⟩ := aliveForeign_mem (c := c) hk' hd
+        exact Or.inr (Or.inl ⟨t, by simp [cands, ht], hf⟩)
+  case jn =>
+    have cv' := cv (Or.inl hpc)
+    cases hs : c.snap with
+    | nil =>
+      simp only []
+      refine ⟨len, by simp [hs], by simp, jd, by simp, ?_⟩
+      intro _ k hk hn
+      rcases cv' k hk hn with h | ⟨t, ht, _⟩ | ⟨h, _⟩
+      · exact h
+      · simp [hs] at ht
+      · simp [hpc] at h
+    | cons t r =>
+      have snt := sn t (by simp [hs])
+      have snr : ∀ t' ∈ r, ∀ k, t'.fid = some k →
+          k < c.foreign.length ∧ t'.daemon = c.foreign.getD k true ∧ t'.cur = false ∧ t'.main = false :=
+        fun t' ht' => sn t' (by simp [hs, ht'])
+      simp only []
+      split
+      · rename_i hmj
+        split
+        · rename_i k hfk
+          obtain ⟨h1, h2, h3, h4⟩ := snt k hfk
+          have hnd : c.foreign.getD k true = false := by
+            simp only [Cand.mustJoin, Bool.and_eq_true, Bool.not_eq_true'] at hmj
+            rw [← h2]; exact hmj.2
+          refine ⟨len, snr, fun _ => ⟨h1, hnd⟩, ?_, ?_, by simp⟩
+          · intro j hj
+            simp only [List.mem_append, List.mem_singleton] at hj
+            rcases hj with hj | hj
+            · exact jd j hj
+            · subst hj; exact ⟨h1, hnd⟩
+          · intro _ j hj hn
+            rcases cv' j hj hn with h | ⟨t', ht', hf'⟩ | ⟨h, _⟩
+            · exact Or.inl h
+            · simp only [hs, List.mem_cons] at ht'
+              rcases ht' with h | h
+              · subst h
+                rw [hfk] at hf'
+                simp only [Option.some.injEq] at hf'
+                exact Or.inr (Or.inr ⟨rfl, hf'⟩)
+              · exact Or.inr (Or.inl ⟨t', h, hf'⟩)
+            · simp [hpc] at h
+        · rename_i hfk
+          refine ⟨len, snr, by simp, jd, ?_, by simp⟩
+          intro _ j hj hn
+          rcases cv' j hj hn with h | ⟨t', ht', hf'⟩ | ⟨h, _⟩
+          · exact Or.inl h
+          · simp only [hs, List.mem_cons] at ht'
+            rcases ht' with h | h
+            · subst h; simp [hfk] at hf'
+            · exact Or.inr (Or.inl ⟨t', h, hf'⟩)
+          · simp [hpc] at h
+      · rename_i hmj
+        refine ⟨len, snr, by simp, jd, ?_, by simp⟩
+        intro _ j hj hn
+        rcases cv' j hj hn with h | ⟨t', ht', hf'⟩ | ⟨h, _⟩
+        · exact Or.inl h
+        · simp only [hs, List.mem_cons] at ht'
+          rcases ht' with h | h
+          · subst h
+            obtain ⟨_, h2, h3, h4⟩ := snt j hf'
+            exfalso
+            apply hmj
+            simp only [Cand.mustJoin, h3, h4, h2, hn, Bool.not_false, Bool.and_self]
+          · exact Or.inr (Or.inl ⟨t', h, hf'⟩)
+        · simp [hpc] at h
+  case jw =>
+    simp only [enabled, hpc, ne_eq, not_true_eq_false, decide_false, Bool.false_or, Bool.and_eq_true,
+      decide_eq_true_eq] at hen
+    refine ⟨len, sn, by simp, jd, ?_, by simp⟩
+    intro _ j hj hn
+    rcases cv (Or.inr hpc) j hj hn with h | h | ⟨_, h⟩
+    · exact Or.inl h
+    · exact Or.inr (Or.inl h)
+    · subst h; exact Or.inl hen.2
+  case ex =>
+    have f := fin (Or.inl hpc)
+    split <;> (refine ⟨len, sn, by simp, jd, by simp, ?_⟩ <;> intro _ <;> exact f)
+  case dx =>
+    have f := fin (Or.inr (Or.inl hpc))
+    exact ⟨len, sn, by simp, jd, by simp, fun _ => f⟩
+  case done => exact ⟨len, sn, jw, jd, cv, fin⟩
+
+theorem jinv_step {c : Cfg} (t : Tid) (h : JInv c) : JInv (step c t) := by
+  unfold step
+  split
+  · rename_i hen
+    cases t with
+    | main => exact jinv_stepMain h hen
+    | x =>
+      obtain ⟨h1, h2, h3, h4, h5, h6⟩ := stepX_frame c
+      exact jinv_frame h h1 h2 h3 h4 h5 h6
+    | f k => exact jinv_stepF k h
+  · exact h
+
+theorem aliveForeign_length (c : Cfg) : (aliveForeign c).length ≤ c.foreign.length := by
+  unfold aliveForeign
+  exact Nat.le_trans (List.length_filterMap_le _ _) (by simp)
+
+theorem snapLen_step {c : Cfg} (t : Tid) (h : c.snap.length ≤ c.foreign.length + 3) :
+    (step c t).snap.length ≤ (step c t).foreign.length + 3 := by
+  have hal := aliveForeign_length c
+  unfold step
+  split
+  · cases t with
+    | main =>
+      unfold stepMain
+      cases c.mpc <;> simp only [] <;> (try split) <;> (try split) <;> (try split) <;>
+        (try simp only [cands, List.length_append, List.length_cons, List.length_nil]) <;>
+        (try simp_all only [List.length_cons]) <;> omega
+    | x =>
+      obtain ⟨_, h2, _, h4, _⟩ := stepX_frame c
+      rw [h2, h4]; exact h
+    | f k => exact h
+  · exact h
+
+theorem snapLen_of_reach {s0 : St} {calls : List BCall} {fr : List Bool} {c : Cfg}
+    (h : Reach s0 calls fr c) : c.snap.length ≤ c.foreign.length + 3 := by
+  induction h with
+  | init =>
+    have : ∀ c : Cfg, c.snap = [] → (enter c).snap.length ≤ (enter c).foreign.length + 3 := by
+      intro c h; unfold enter; split <;> simp [h]
+    exact this _ rfl
+  | step t _ ih => exact snapLen_step t ih
+
+theorem jinv_of_reach {s0 : St} {calls : List BCall} {fr : List Bool} {c : Cfg}
+    (h : Reach s0 calls fr c) : JInv c := by
+  induction h with
+  | init => exact jinv_init s0 calls fr
+  | step t _ ih => exact jinv_step t ih
+
 /-- how many of its own steps the main thread needs, at most, to return from `block()` once the
-    bus is EXITING -/
-def dist : MPc → Nat
-  | .b10 => 5 | .b11 => 4 | .w2 => 3 | .w4 => 2 | .w5 => 4 | .w6 => 3 | .tail => 1 | .done => 0
+    bus is EXITING and the foreign threads it has to join have finished: one per candidate of the
+    `enumerate()` snapshot, one more per joined thread, plus the fixed lines -/
+def dist (c : Cfg) : Nat :=
+  let T := 2 * (3 + c.foreign.length) + 4
+  match c.mpc with
+  | .b10 => T + 4 | .b11 => T + 3 | .w2 => T + 2 | .w4 => T + 1 | .w5 => T + 3 | .w6 => T + 2
+  | .tail => T
+  | .jn => 2 * c.snap.length + 3
+  | .jw => 2 * c.snap.length + 4
+  | .ex => 2 | .dx => 1 | .done => 0
 
 theorem dist_stepMain {c : Cfg} (hs : c.state = .exiting) :
-    dist (stepMain c).mpc = dist c.mpc - 1 := by
+    dist (stepMain c) ≤ dist c - 1 := by
+  have hal := aliveForeign_length c
   unfold stepMain
-  cases h : c.mpc <;> simp [dist, hs, h]
+  cases h : c.mpc <;> simp only []
+  case b10 => simp [dist, h]
+  case b11 => simp [dist, h]
+  case w2 => simp [dist, h]
+  case w4 => simp [dist, h, hs]
+  case w5 => simp [dist, h]
+  case w6 => simp [dist, h]
+  case tail =>
+    simp only [dist, h, cands, List.length_append, List.length_cons, List.length_nil]
+    omega
+  case jn =>
+    cases hsn : c.snap with
+    | nil => simp [dist, h, hsn]
+    | cons t r =>
+      simp only []
+      by_cases hm : t.mustJoin = true
+      · simp only [hm, if_true]
+        cases hf : t.fid with
+        | none => simp only [dist, h, hsn, List.length_cons]; omega
+        | some k => simp only [dist, h, hsn, List.length_cons]; omega
+      · simp only [hm, Bool.false_eq_true, if_false]
+        simp only [dist, h, hsn, List.length_cons]; omega
+  case jw => simp only [dist, h]; omega
+  case ex => by_cases hx : c.execv = true <;> simp [dist, h, hx]
+  case dx => simp [dist, h]
+  case done => simp [dist, h]
 
-theorem mpc_stepX (c : Cfg) : (stepX c).mpc = c.mpc := by
-  unfold stepX
-  cases c.xpc <;> simp only [] <;> (try split) <;> (try unfold enter) <;> (try split) <;> rfl
+/-- all non-daemon foreign threads have finished -/
+def ForeignDone (c : Cfg) : Prop :=
+  ∀ k, k < c.foreign.length → c.foreign.getD k true = false → isDone c k = true
+
+theorem foreignDone_step {c : Cfg} (t : Tid) (h : ForeignDone c) : ForeignDone (step c t) := by
+  unfold step
+  split
+  · cases t with
+    | main =>
+      have : (stepMain c).foreign = c.foreign ∧ (stepMain c).fdone = c.fdone := by
+        unfold stepMain
+        cases c.mpc <;> simp only [] <;> (try split) <;> (try split) <;> (try split) <;> simp
+      intro k; simp only [isDone, this.1, this.2]; exact h k
+    | x =>
+      obtain ⟨_, h2, h3, _⟩ := stepX_frame c
+      intro k; simp only [isDone, h2, h3]; exact h k
+    | f j => intro k hk hn; exact isDone_set j k (h k hk hn)
+  · exact h
 
 theorem dist_run {calls : List BCall} (sched : List Tid) :
-    ∀ c : Cfg, Inv calls c → c.exited = true →
-      dist (run c sched).mpc ≤ dist c.mpc - sched.count .main := by
+    ∀ c : Cfg, Inv calls c → JInv c → c.exited = true → ForeignDone c →
+      dist (run c sched) ≤ dist c - sched.count .main := by
   induction sched with
-  | nil => intro c _ _; simp [run]
+  | nil => intro c _ _ _ _; simp [run]
   | cons t ts ih =>
-    intro c h he
+    intro c h hj he hfd
     have h' := inv_step t h
+    have hj' := jinv_step t hj
     have he' := exited_step t h he
-    have := ih (step c t) h' he'
+    have hfd' := foreignDone_step t hfd
+    have := ih (step c t) h' hj' he' hfd'
     simp only [run]
     have hs := (h.ex he).1
     cases t with
     | main =>
-      have hd : dist (step c .main).mpc = dist c.mpc - 1 := by
+      have hd : dist (step c .main) ≤ dist c - 1 := by
         unfold step
         split
         · exact dist_stepMain hs
         · rename_i hen
-          simp only [enabled, decide_eq_true_eq, ne_eq, Decidable.not_not] at hen
-          simp [hen, dist]
+          simp only [enabled, ne_eq, Bool.and_eq_true, decide_eq_true_eq, Bool.or_eq_true, not_and,
+            not_or] at hen
+          by_cases hm : c.mpc = .done
+          · simp [dist, hm]
+          · exfalso
+            have h2 := hen hm
+            by_cases hw : c.mpc = .jw
+            · obtain ⟨hlt, hnd⟩ := hj.jw hw
+              exact h2.2 (hfd _ hlt hnd)
+            · exact h2.1 hw
       simp only [List.count_cons_self]
       omega
     | x =>
-      have hd : (step c .x).mpc = c.mpc := by
+      have hd : dist (step c .x) = dist c := by
         unfold step; split
-        · exact mpc_stepX c
+        · obtain ⟨h1, h2, _, h4, _⟩ := stepX_frame c
+          simp only [dist, h1, h2, h4]
         · rfl
       have hc : List.count Tid.main (Tid.x :: ts) = List.count Tid.main ts := by
         rw [List.count_cons]; simp
       rw [hd] at this
       rw [hc]
       exact this
+    | f k =>
+      have hd : dist (step c (.f k)) = dist c := by
+        unfold step; split <;> rfl
+      have hc : List.count Tid.main (Tid.f k :: ts) = List.count Tid.main ts := by
+        rw [List.count_cons]; simp
+      rw [hd] at this
+      rw [hc]
+      exact this
 
-theorem dist_zero {m : MPc} (h : dist m = 0) : m = .done := by
-  cases m <;> simp_all [dist]
+theorem dist_zero {c : Cfg} (h : dist c = 0) : c.mpc = .done := by
+  unfold dist at h
+  cases hm : c.mpc <;> simp_all <;> omega
 
 /-! ### theorems -/
 
 /-- EXITING is stable: once `exit()` has written it, every later state of every schedule is EXITING. -/
-theorem C20_exiting_stable (s0 : St) (calls : List BCall) (c : Cfg) (hs : s0 ≠ .exiting)
-    (hl : ExitLast calls = true) (h : Reach s0 calls c) (he : c.exited = true) (sched : List Tid) :
+theorem C20_exiting_stable (s0 : St) (calls : List BCall) (fr : List Bool) (c : Cfg) (hs : s0 ≠ .exiting)
+    (hl : ExitLast calls = true) (h : Reach s0 calls fr c) (he : c.exited = true) (sched : List Tid) :
     (run c sched).state = .exiting := by
   have hi := inv_of_reach hs hl h
   suffices ∀ c, Inv calls c → c.exited = true → (run c sched).state = .exiting from this c hi he
@@ -191,31 +510,39 @@ theorem C20_exiting_stable (s0 : St) (calls : List BCall) (c : Cfg) (hs : s0 ≠
   | nil => intro c h he; exact (h.ex he).1
   | cons t ts ih => intro c h he; exact ih _ (inv_step t h) (exited_step t h he)
 
-/-- `block()` returns once the bus is EXITING: under ANY schedule in which the main thread gets 5
-    turns (fairness for main), whatever the other thread does in between. -/
-theorem C20_block_returns (s0 : St) (calls : List BCall) (c : Cfg) (hs : s0 ≠ .exiting)
-    (hl : ExitLast calls = true) (h : Reach s0 calls c) (he : c.exited = true) (sched : List Tid)
-    (hf : 5 ≤ sched.count .main) : (run c sched).mpc = .done := by
-  have := dist_run sched c (inv_of_reach hs hl h) he
+/-- `block()` returns once the bus is EXITING and the non-daemon foreign threads have finished:
+    under ANY schedule in which the main thread gets `2 * #foreign + 14` turns (fairness for main),
+    whatever the other threads do in between. -/
+theorem C20_block_returns (s0 : St) (calls : List BCall) (fr : List Bool) (c : Cfg) (hs : s0 ≠ .exiting)
+    (hl : ExitLast calls = true) (h : Reach s0 calls fr c) (he : c.exited = true)
+    (hfd : ForeignDone c) (sched : List Tid)
+    (hf : 2 * c.foreign.length + 14 ≤ sched.count .main) : (run c sched).mpc = .done := by
+  have := dist_run sched c (inv_of_reach hs hl h) (jinv_of_reach h) he hfd
   apply dist_zero
-  have : dist c.mpc ≤ 5 := by cases c.mpc <;> simp [dist]
+  have hj := jinv_of_reach h
+  have hb : dist c ≤ 2 * c.foreign.length + 14 := by
+    unfold dist
+    cases hm : c.mpc <;> simp only [] <;> try omega
+    all_goals
+      have hlen := snapLen_of_reach h
+      omega
   omega
 
 /-- ... and not before: when the main thread has left `wait`, EXITING had been written and the
     bus is still EXITING. -/
-theorem C20_block_only_after_exiting (s0 : St) (calls : List BCall) (c : Cfg) (hs : s0 ≠ .exiting)
-    (hl : ExitLast calls = true) (h : Reach s0 calls c) (hm : c.mpc = .tail ∨ c.mpc = .done) :
+theorem C20_block_only_after_exiting (s0 : St) (calls : List BCall) (fr : List Bool) (c : Cfg)
+    (hs : s0 ≠ .exiting) (hl : ExitLast calls = true) (h : Reach s0 calls fr c) (hm : leftWait c.mpc) :
     c.exited = true ∧ c.state = .exiting := by
   have hi := inv_of_reach hs hl h
   have he := hi.saw (hi.mp hm)
   exact ⟨he, (hi.ex he).1⟩
 
 /-- when `block()` has returned, the main thread has performed `execv` iff `restart()` was called -/
-theorem C20_execv_iff_restart (s0 : St) (calls : List BCall) (c : Cfg) (hs : s0 ≠ .exiting)
-    (hl : ExitLast calls = true) (h : Reach s0 calls c) (hm : c.mpc = .done) :
+theorem C20_execv_iff_restart (s0 : St) (calls : List BCall) (fr : List Bool) (c : Cfg)
+    (hs : s0 ≠ .exiting) (hl : ExitLast calls = true) (h : Reach s0 calls fr c) (hm : c.mpc = .done) :
     c.execvDone = true ↔ BCall.restart ∈ calls := by
   have hi := inv_of_reach hs hl h
-  have he := hi.saw (hi.mp (Or.inr hm))
+  have he := hi.saw (hi.mp (by simp [leftWait, hm]))
   obtain ⟨_, ht, ha⟩ := hi.ex he
   rw [hi.dn hm]
   constructor
@@ -235,14 +562,62 @@ theorem C20_block_returns_needs_exitLast :
   decide +kernel
 
 /-! non-vacuity -/
-example : ∃ c, Reach .started [.stop, .restart] c ∧ c.exited = true ∧ c.mpc = .w5 := by
-  have : ∀ sched, Reach .started [.stop, .restart] (run (init .started [.stop, .restart]) sched) := by
+theorem reach_run (s0 : St) (calls : List BCall) (fr : List Bool) (sched : List Tid) :
+    Reach s0 calls fr (run (init s0 calls fr) sched) := by
+  suffices ∀ c, Reach s0 calls fr c → Reach s0 calls fr (run c sched) from this _ .init
+  induction sched with
+  | nil => intro c h; exact h
+  | cons t ts ih => intro c h; exact ih _ (.step t h)
+
+example : ∃ c, Reach .started [.stop, .restart] [] c ∧ c.exited = true ∧ c.mpc = .w5 := by
+  have : ∀ sched, Reach .started [.stop, .restart] [] (run (init .started [.stop, .restart]) sched) := by
     intro sched
-    suffices ∀ c, Reach .started [.stop, .restart] c → Reach .started [.stop, .restart] (run c sched)
+    suffices ∀ c, Reach .started [.stop, .restart] [] c → Reach .started [.stop, .restart] [] (run c sched)
       from this _ .init
     induction sched with
     | nil => intro c h; exact h
     | cons t ts ih => intro c h; exact ih _ (.step t h)
   exact ⟨_, this (List.replicate 4 .main ++ List.replicate 18 .x), by decide +kernel, by decide +kernel⟩
+
+/-- `block()` joins only foreign threads that are not daemonic — never the caller, never the
+    `_MainThread` (no self-deadlock), never a daemon -/
+theorem C20_block_joins_only_nondaemon (s0 : St) (calls : List BCall) (fr : List Bool) (c : Cfg)
+    (h : Reach s0 calls fr c) : ∀ k ∈ c.joined, k < c.foreign.length ∧ c.foreign.getD k true = false :=
+  (jinv_of_reach h).jd
+
+/-- when the join loop is over (the `execv` test, `_do_execv`, returned) every non-daemon foreign
+    thread has finished: `block()` does not return, and does not re-exec, before they have -/
+theorem C20_block_waits_for_foreign (s0 : St) (calls : List BCall) (fr : List Bool) (c : Cfg)
+    (h : Reach s0 calls fr c) (hm : c.mpc = .ex ∨ c.mpc = .dx ∨ c.mpc = .done) : ForeignDone c :=
+  (jinv_of_reach h).fin hm
+
+/-- execv is performed only after those joins -/
+theorem C20_execv_after_joins (s0 : St) (calls : List BCall) (fr : List Bool) (c : Cfg)
+    (hs : s0 ≠ .exiting) (hl : ExitLast calls = true) (h : Reach s0 calls fr c)
+    (hx : c.execvDone = true) : ForeignDone c := by
+  have hi := inv_of_reach hs hl h
+  have hm : c.mpc = .done := by
+    apply Classical.byContradiction
+    intro hne
+    have := hi.nd hne
+    simp [hx] at this
+  exact (jinv_of_reach h).fin (Or.inr (Or.inr hm))
+
+/-- a non-daemon foreign thread that has not finished keeps `block()` inside the join loop -/
+theorem C20_block_blocked_by_foreign (s0 : St) (calls : List BCall) (fr : List Bool) (c : Cfg)
+    (h : Reach s0 calls fr c) (k : Nat) (hk : k < c.foreign.length)
+    (hn : c.foreign.getD k true = false) (hd : isDone c k = false) : c.mpc ≠ .done := by
+  intro hm
+  have := (jinv_of_reach h).fin (Or.inr (Or.inr hm)) k hk hn
+  simp [hd] at this
+
+/-! non-vacuity: one non-daemon and one daemon foreign thread; the daemon one never finishes -/
+example : let c := run (init .started [.restart] [false, true]) (List.replicate 12 .x ++ List.replicate 9 .main ++ [.f 0] ++ List.replicate 6 .main)
+    c.mpc = .done ∧ c.joined = [0] ∧ c.execvDone = true ∧ c.fdone = [true, false] := by
+  decide +kernel
+
+example : let c := run (init .started [.restart] [false, true]) (List.replicate 12 .x ++ List.replicate 40 .main)
+    c.mpc = .jw ∧ c.joined = [0] ∧ c.execvDone = false := by
+  decide +kernel
 
 end CpProofs.C20B
